@@ -1,6 +1,6 @@
 SPECIFICATION Spec
 CONSTANTS
-  MaxLen = 4
+  MaxLen = 3
   Kinds <- QKinds
   Export = TRUE
 INVARIANT Inv
